@@ -1791,3 +1791,106 @@ def r17_10(ctx):
                             f"the SYN (sent_syn = false): the peer's ACK of the SYN is then accounted as acknowledging the FIN, and the socket leaves {t_} although its FIN was never sent", body=ctx.method(SOCK, fn))
     for v in sorted(unacked):
         ctx.ok(('process', 'counts SYN in', v), sample=dict(state=v, sent_syn=True))
+
+
+@rule('R06.15', ['C06', 'C10'], floor=8, clause='a representation whose encoded length is a constant has every one of those octets written by its emit (per kind of message): no octet of a fixed-size header is left to the previous buffer content')
+def r06_15(ctx):
+    from ..bitfield import setter_stores, Undecided
+    from .c06 import _method_maps, in_scope
+    F = ctx.F
+    maps = _method_maps(F)
+    n = 0
+    for k, b in sorted(F.bodies.items()):
+        if not k.startswith('wire::') or '::test' in k or k.rsplit('::', 1)[-1] != 'emit':
+            continue
+        R = b.meta.get('impl_self')
+        a = F.adts.get(R) if R else None
+        if not a or not R.endswith('Repr') or not in_scope(F, R) or not in_scope_repr(F, R):
+            continue
+        bl_ = F.method(R, 'buffer_len')
+        if bl_ is None:
+            continue
+        variants = [v['name'] for v in a['variants']] if a['kind'] == 'enum' else [None]
+        for v in variants:
+            def under(body, v=v):
+                if v is None:
+                    return set(body.reachable())
+                cut = set(guard_edges(F, body, lambda f: (f[0] == 'is' and leafs(f[1]) == {'A:1'} and f[3] == R and f[2] != v) or
+                                      (f[0] == 'isnot' and leafs(f[1]) == {'A:1'} and f[3] == R and v in f[2])))
+                return set(body.reachable(cut_edges=cut))
+            vals = set()
+            nonconst = False
+            for bi in sorted(under(bl_)):
+                for si, s in enumerate(bl_.blocks[bi]['s']):
+                    if s[0] == 'a' and s[1] == [0, []]:
+                        c = const_of(simplify(expand(F, F.origin.rvalue(bl_, s[2], bi, si, 0, None), '-')))
+                        if c is None:
+                            nonconst = True
+                        else:
+                            vals.add(c)
+                t = bl_.blocks[bi]['t']
+                if t[0] == 'call' and t[3] == [0, []]:
+                    nonconst = True
+            if nonconst or len(vals) != 1:
+                continue
+            N = vals.pop()
+            if N <= 0 or N > 64:
+                continue
+            blocks = under(b)
+            why = _unresolved_writes(F, b, blocks, maps)
+            if why:
+                ctx.note(f"{R.split('wire::', 1)[1]}{'::' + v if v else ''}: not decided ({why})")
+                continue
+            try:
+                M = setter_stores(F, b, None, only_blocks=blocks, lenient=True, submaps=maps)
+            except Undecided:
+                continue
+            if not M:
+                continue
+            n += 1
+            short = R.split('wire::', 1)[1] + (f"::{v}" if v else '')
+            missing = [i for i in range(N) if i not in M or all(x == ('b', i, j) for j, x in enumerate(M[i]))]
+            if missing:
+                ctx.bad(f"{short}|unwritten-octets|{missing[0]}", f"{short}: emit never writes octet(s) {missing[:6]} of the {N} octets buffer_len() declares: they keep what the buffer "
+                        "contained before (the emitted bytes, and any checksum over them, depend on the previous buffer content)", body=b)
+            else:
+                ctx.ok((short, N), sample=dict(repr=short, octets=N, all_written=True))
+    ctx.need(n >= 8, f"constant-length representations (found {n})")
+
+
+def _unresolved_writes(F, b, blocks, maps):
+    """reason (or None) why the may-define byte map of emit body `b` restricted to `blocks` would be incomplete: a write whose
+    position is not a constant, a nested emit, a setter the bit evaluator has no map for, a checksum filled in by the caller"""
+    from ..bitfield import _slice_of_buffer, WRITES
+    views = set(wire_views_cached(F))
+    for bi in sorted(blocks):
+        bl = b.blocks[bi]
+        t = bl['t']
+        if bl['cl'] or t[0] != 'call':
+            continue
+        nm = b.callee_name(t[1]) or (t[1].get('fn') if isinstance(t[1], dict) else '') or ''
+        last = nm.rsplit('::', 1)[-1]
+        si = len(bl['s'])
+        if last in WRITES or last in ('copy_from_slice', 'fill', 'clone_from_slice'):
+            dst = F.origin.operand(b, t[2][0], bi, si) if t[2] else None
+            if dst is not None and _slice_of_buffer(F, dst, None) is None:
+                return f"{last} at a position that is not constant"
+        elif last in ('emit', 'emit_header') and nm.startswith('wire::'):
+            return f"nested {last}"
+        else:
+            cb = F.bodies.get(nm)
+            if cb is not None and cb.meta.get('impl_self') in views and cb.nargs >= 1 and cb.locals[1]['ty'].startswith('&mut'):
+                if not maps.get(nm):
+                    return f"{last}() writes at positions the evaluator cannot resolve"
+    return None
+
+
+_WV = {}
+
+
+def wire_views_cached(F):
+    from ..wirelib import wire_views
+    k = id(F)
+    if k not in _WV:
+        _WV[k] = wire_views(F)
+    return _WV[k]
